@@ -132,6 +132,24 @@ theorem actStep_inv (m : Mon) (a : Act) (h : MInv m) : MInv (actStep m a).m := b
     obtain ⟨h1, h2, h3, h4⟩ := h
     split
     · exact ⟨h1, h2, h3, h4⟩
+    · split
+      · refine ⟨h1, h2, ?_, h4⟩
+        intro s hs
+        rcases List.mem_cons.mp hs with e | e
+        · subst e
+          exact ⟨h2, by simp⟩
+        · exact h3 s e
+      · refine ⟨h1, h2, ?_, h4⟩
+        intro s hs
+        rcases List.mem_cons.mp hs with e | e
+        · subst e
+          exact ⟨h2, by simp⟩
+        · exact h3 s e
+  | shutdown sid =>
+    simp only [actStep]
+    obtain ⟨h1, h2, h3, h4⟩ := h
+    split
+    · exact ⟨h1, h2, h3, h4⟩
     · refine ⟨h1, h2, ?_, h4⟩
       intro s hs
       rcases List.mem_cons.mp hs with e | e
